@@ -112,9 +112,9 @@ MUTANTS = [
     # ------------------------------------------------------------------ revert of repaired defect F32 (C02)
     ("c02_marker_slot_reoffered", "C02", [(RS, "        if isinstance(self.scoreboard[sb_idx], int):\n            return False\n\n", "")]),
     # ------------------------------------------------------------------ reverts of repaired defect F31 (C10, C07)
-    ("c10_rollup_parents_first", "C10", [(PJ, "        for task in reversed(list(self.tasks)):\n            if task.leaf():\n                continue  # Skip leaf tasks",
+    ("c10_rollup_parents_first", "C07", [(PJ, "        for task in reversed(list(self.tasks)):\n            if task.leaf():\n                continue  # Skip leaf tasks",
                                           "        for task in self.tasks:\n            if task.leaf():\n                continue  # Skip leaf tasks")]),
-    ("c10_no_rollup_before_first_scan", "C10", [(PJ, "        self._updateContainerTaskStatus(scIdx)\n\n        while tasks:", "        while tasks:")]),
+    ("c10_no_rollup_before_first_scan", "C07", [(PJ, "        self._updateContainerTaskStatus(scIdx)\n\n        while tasks:", "        while tasks:")]),
     ("c07_no_rollup_before_first_scan", "C07", [(PJ, "        self._updateContainerTaskStatus(scIdx)\n\n        while tasks:", "        while tasks:")]),
     # ------------------------------------------------------------------ reverts of repaired defects F28-F30 (C11)
     ("c11_leave_before_start_unclipped", "C11", [(RS, "ALL:range(max(start_idx, 0), min(end_idx, size))", "range(start_idx, min(end_idx, size))")]),
@@ -202,8 +202,8 @@ MUTANTS = [
     ("c09_priority_ascending", "C09", [(PJ, "            return (-prio, -crit, seq)", "            return (prio, -crit, seq)")]),
     ("c09_successor_by_name", "C09", [(TS, "                if self._dependsOnMe(pred):\n                    successors.append(task)", "                if pred is not None:\n                    successors.append(task)")]),
     # ------------------------------------------------------------------ C10
-    ("c10_containers_on_worklist", "C10", [(PJ, "tasks: list[Any] = [t for t in all_tasks if t.leaf() and not t.get(\"scheduled\", scIdx)]", "tasks: list[Any] = [t for t in all_tasks if not t.get(\"scheduled\", scIdx)]")]),
-    ("c10_rollup_max_start", "C10", [(PJ, "                if child_start and (min_start is None or child_start < min_start):", "                if child_start and (min_start is None or child_start > min_start):")]),
+    ("c10_containers_on_worklist", "C10", [(PJ, "tasks: list[Any] = [t for t in all_tasks if t.leaf() and not t.get(\"scheduled\", scIdx) and t not in inverted]", "tasks: list[Any] = [t for t in all_tasks if not t.get(\"scheduled\", scIdx) and t not in inverted]")]),
+    ("c10_rollup_max_start", "C04", [(PJ, "                if child_start and (min_start is None or child_start < min_start):", "                if child_start and (min_start is None or child_start > min_start):")]),
     ("c10_container_scheduled_early", "C10", [(PJ, "            if not all_scheduled:\n                continue\n", "")]),
     ("c10_group_gets_scoreboard", "C10", [(RS, "        self._effort = 0.0\n        if self.property.leaf():\n            self.initScoreboard()", "        self._effort = 0.0\n        self.initScoreboard()")]),
     ("c10_schedulecontainer_min_end", "C10", [(TS, "            if n_end is None or child_end > n_end:", "            if n_end is None or child_end < n_end:")]),
